@@ -43,7 +43,16 @@ def parseProj (kind : String) (ps : List Rat) : Option Proj :=
   | "square", [] => some .square
   | "shear", [k] => some (.shear k)
   | "lin", [a, b, c, d, e, f] => some (.lin a b c d e f)
+  | "radial", [a, b] => some (.radial a b)
   | _, _ => none
+
+/-- NaN-able list: atoms `nan` become `none`. -/
+def optRats (v : Val) : Option (List (Option Rat)) :=
+  match v with
+  | .list xs => xs.mapM fun x => match x with
+      | .atom "nan" => some none
+      | x => (fromVal x : Option Rat).map some
+  | _ => none
 
 def opsCoords (op : String) (a : List Val) : Option Val :=
   match op with
@@ -79,9 +88,9 @@ def opsCoords (op : String) (a : List Val) : Option Val :=
       pure (toVal (padRegion r (← argAt Rat a 1) (← argAt Rat a 2)))
   | "inside" => do
       let region ← argAt (List Rat) a 0
-      let es ← argAt (List Rat) a 1
-      let ns ← argAt (List Rat) a 2
-      pure (toVal ((checkRegion region).map fun r => (es.zip ns).map fun (e, n) => insidePt r e n))
+      let es ← optRats (← a[1]?)
+      let ns ← optRats (← a[2]?)
+      pure (toVal ((checkRegion region).map fun r => (es.zip ns).map fun (e, n) => insidePtOpt r e n))
   | "scatter" => do
       pure (toVal (scatterPoints (← argAt (List Rat) a 0) (← argAt (List Rat) a 1) (← argAt (List Rat) a 2)
         (← argAt (List Rat) a 3)))
@@ -99,14 +108,6 @@ def opsCoords (op : String) (a : List Val) : Option Val :=
 def parseRed : String → Option (Option Red)
   | "mean" => some (some .mean) | "median" => some (some .median) | "sum" => some (some .sum)
   | "min" => some (some .min) | "max" => some (some .max) | "average" => some none | _ => none
-
-/-- NaN-able list: atoms `nan` become `none`. -/
-def optRats (v : Val) : Option (List (Option Rat)) :=
-  match v with
-  | .list xs => xs.mapM fun x => match x with
-      | .atom "nan" => some none
-      | x => (fromVal x : Option Rat).map some
-  | _ => none
 
 def blockSpecAt (a : List Val) (i : Nat) : Option BlockSpec := do
   pure ⟨← argAt (Option (List Rat)) a i, ← argAt (Option (Nat × Nat)) a (i + 1),
